@@ -7,6 +7,7 @@ import ast
 from ..cfg import CFG
 from ..core import AnalysisError, const_value
 from ..defuse import DefUse, Terms, show, walk_term
+from ..defuse import key as tkey
 from ..effects import (WriterEvents, fs_enumerations, open_calls,
                        pandas_append_writes)
 
@@ -131,7 +132,7 @@ def _check_rollup_filter(ctx):
                 "comprehensions not found")
     for lc in reader_lists:
         it = T.of(lc.generators[0].iter)
-        txt = show(it, 600)
+        txt = tkey(it, 600)
 
         def leaves(t):
             if t[0] == "phi":
@@ -148,7 +149,7 @@ def _check_rollup_filter(ctx):
                 return False
             for _names, _it, conds in t[3]:
                 for c in conds:
-                    ctxt = show(c, 300)
+                    ctxt = tkey(c, 300)
                     if c[0] == "un" and c[1] == "not" and \
                             "startswith(" in ctxt and "file_root" in ctxt:
                         return True
@@ -354,7 +355,7 @@ def _check_level_cleanup(ctx):
     path_var = None
     for n in unl:
         t = T.of(n.args[0])
-        if t[0] == "zipelem" and show(t[2][t[1]]) == "level_paths":
+        if t[0] == "zipelem" and tkey(t[2][t[1]]) == "level_paths":
             path_var = n
     ctx.check(path_var is not None, "C09c-level-file-removed", f,
               "the level file of each iteration is unlinked",
